@@ -589,6 +589,17 @@ def builders_rule(rep, prog, cfg):
                 l = op_local(o)
                 got[fname] = params_of(fl, l) if l is not None else []
             ok = got == {"tag": [1], "operator": [2], "value": [3]}
+            # ... unchanged: between the parameter and the field only conversions of ownership / view (`into`, `to_owned`, `String::from`),
+            # nothing that rewrites the text (`trim`, `to_lowercase`, `replace`)
+            from .. import terms
+            changed = {}
+            for fname, o in zip(s["rv"].get("fields") or [], s["rv"]["ops"]):
+                _, tr = terms.raw_source(b, o)
+                tr = [x for x in tr if x]
+                if tr:
+                    changed[fname] = [x.rsplit("::", 1)[-1] for x in tr]
+            rep.check(not changed, rule, cfg + "/new stores its parameters unchanged", b.loc(b.span),
+                      "Filter::new rewrites a parameter before storing it (%s): the value sent is not the value given" % changed)
         rep.check(ok, rule, cfg + "/new stores its parameters", b.loc(b.span),
                   "Filter::new(tag, operator, value) must build Tag { tag, operator, value } from the parameters of the same position; found %s" % got)
 
@@ -601,12 +612,14 @@ def run(rep, progs, tier):
         "on every iteration but the first, the whole expression as one double-quoted parameter. (2) Operator::as_str's variant -> text table equals MPD's "
         "operator table. (3) The value escaper is reduced to its exact transducer per set of character classes (A15) and composed with the two quoted-string "
         "decoders a value passes through (tokenizer, filter parser): the composition must return the character. (4) and / negate / new: provenance rules. "
-        "NOT decided: the tag's protocol name (C20), regular-expression semantics of =~ / !~, NUL and LF in values (outside the alphabet, see C06/C07), "
+        "The TAG slot: C20's tag tables and alphabet are imported. NOT decided: regular-expression semantics of =~ / !~, NUL and LF in values (outside the alphabet, see C06/C07), "
         "filters built by other means than new / and / negate (tag_exists / tag_absent are conveniences over new).")
     rep.rule("C11.grammar", "write events of the expression renderers = MPD's filter grammar, slot by slot")
     rep.rule("C11.operators", "Operator -> text table = MPD's operator table")
     rep.rule("C11.value", "per character-class set: filter-string(tokenizer-string(escaper(value))) = value")
-    rep.rule("C11.builders", "and keeps all conditions in order; negate wraps the whole expression; new stores its parameters")
+    rep.rule("C11.builders", "and keeps all conditions in order; negate wraps the whole expression; new stores its parameters unchanged")
+    rep.rule("C11.tags.tag-tables", "Tag::as_str writes each tag under its protocol name (C20's tables, decided here for the TAG slot)")
+    rep.rule("C11.tags.charset", "a checked tag name consists of characters the filter grammar reads as one word (C20's alphabet)")
     rep.trusted = ["rustc MIR construction", "mpdfacts exporter", "MPD SongFilter.cxx / Tokenizer.cxx quoted-string semantics as transcribed in this file",
                    "rustc's format template encoding"]
     rep.assume("values containing NUL or LF are outside the analysed alphabet")
@@ -615,3 +628,9 @@ def run(rep, progs, tier):
         operators_rule(rep, prog, cfg)
         value_rule(rep, prog, cfg, escaper)
         builders_rule(rep, prog, cfg)
+        # the TAG slot is filled with Tag::as_str: that each tag is written under its protocol name, and that a checked tag name
+        # consists of characters the filter grammar reads as one word, are C20's tables and alphabet — decided here for C11's clause
+        from .C20 import tag_rules, charset_rule
+        with rep.importing("C20.", "C11.tags."):
+            tag_rules(rep, prog, cfg)
+            charset_rule(rep, prog, cfg)
